@@ -202,6 +202,21 @@ fn main() {
             writeln!(out, "{}", json!({"k": format!("w-{be}-{i}"), "op": "wrap", "be": be, "a": sc(x), "lo": sc(lo), "hi": sc(hi), "r": sc(rv),
                 "below": (rv < lo) as u8, "above": (rv > hi) as u8, "panic": pn})).unwrap();
         }
+        // the radius of to_polar / to_spherical is the vector's length, under this build's square root:
+        // magnitudes from 2^-45 (squares still normal numbers) to 2^20
+        use re::math::vec::{vec2, vec3};
+        for i in 0..(n / 10) {
+            let mag = 2f64.powi(((rng.unit() * 66.0) as i32) - 45);
+            let c: Vec<f32> = (0..3).map(|_| ((rng.unit() - 0.5) * 2.0 * mag) as f32).collect();
+            let big = c.iter().fold(0f32, |a, x| a.max(x.abs()));
+            if big == 0.0 { continue; }
+            let k = 2f64.powi(13 - (big as f64).log2().floor() as i32);
+            let q = |x: f32| -> i64 { let v = (x as f64 * k).round(); if v.is_finite() { v.clamp(-2e9, 2e9) as i64 } else { 2_000_000_000 } };
+            let r2 = guard(|| vec2::<f32, ()>(c[0], c[1]).to_polar().r());
+            let r3 = guard(|| vec3::<f32, ()>(c[0], c[1], c[2]).to_spherical().r());
+            let (p, a2, a3) = match (r2, r3) { (Some(a), Some(b)) => (0, q(a), q(b)), _ => (1, 0, 0) };
+            writeln!(out, "{}", json!({"k": format!("rl-{be}-{i}"), "op": "rlen", "be": be, "v": [q(c[0]), q(c[1]), q(c[2])], "r2": a2, "r3": a3, "panic": p})).unwrap();
+        }
         out.flush().unwrap();
         return;
     }
